@@ -162,3 +162,11 @@ G6_tri = [
     r('triangulation:_point_in_triangle', [Q, Q, Q, Q, Q, Q, Q, Q], name='earcut_point_in_triangle'),
 ]
 LAYERS.append(('G6_tri', G6_tri))
+
+G7_contain = [
+    r('Polygon2D.is_point_inside', [POLY2, P2, V2], name='Polygon2D_is_point_inside'),
+    r('Polygon2D.is_point_inside_bound_rect', [POLY2, P2, V2], name='Polygon2D_is_point_inside_bound_rect'),
+    r('Polygon2D.is_point_on_edge', [POLY2, P2, Q], name='Polygon2D_is_point_on_edge'),
+    r('Polygon2D.point_relationship', [POLY2, P2, Q], name='Polygon2D_point_relationship'),
+]
+LAYERS.append(('G7_contain', G7_contain))
